@@ -329,8 +329,8 @@ def make_programs(pid, tier, rng):
         # that contains a rare byte is located and extracted
         geo = G.geometric_set()
         rare_idx = [i + 1 for i, x in enumerate(geo) if any(c >= 75 for c in x)][:120]
-        for kind in ("HTFC", "HASHHF", "PFC", "RPDAC"):
-            par = G.P(bucket=16, overhead=25)
+        for kind, bucket in (("HTFC", 16), ("HTFC", 2), ("HTFC", 3), ("HASHHF", 16), ("PFC", 16), ("RPDAC", 16)):
+            par = G.P(bucket=bucket, overhead=25)
             progs += obj_programs(pid, kind, par, "geometric", geo, "members",
                                   lambda h, its: G.sec_members(h, geo, rng, 10) + ["E %d %d" % (h, i) for i in rare_idx] + ["L %d %s" % (h, G.hx(geo[i - 1])) for i in rare_idx])
     if pid == "C06":
